@@ -1,0 +1,54 @@
+//go:build verif
+
+// Contract for the asynchronous vector reader of this field (comment-only; installed by /verif/gcv gen-contracts).
+// AsyncReadFrom reads the length prefix and the payload, then validates and converts the elements in a goroutine
+// that reports on a channel. Under contract, for every reader and every announced length:
+//   - the function and its goroutine never index or slice out of range: in particular the byte view of the payload
+//     has Bytes bytes for every element the conversion loop visits (the obligation that failed on the pinned tree:
+//     finding F40, the byte length was computed in 32-bit arithmetic);
+//   - an element that is not below the modulus is counted, and whenever one was seen a non-nil error is sent on the
+//     channel (invalid-element-reported); an error returned synchronously is never followed by a send;
+//   - the channel is closed exactly once on every path.
+// How: the go statement is executed as a call where the goroutine is started (option go-as-call), execute(n, work) -
+// this package's copy of parallel.Execute, under its own partition contract - as work(0, n) (option
+// execute-as-range; the independence of the iterations is assumed), the channel is an opaque object whose sends and
+// closes are events (option channels-as-log: blocking and the receiving side are not modelled), and the unsafe byte
+// view of the vector is a separate slice with arbitrary contents (option unsafe-views: nothing is said about the
+// contents of the vector). smallerThanModulus and toMont enter through their contracts (C01).
+
+package fp
+
+//@ func io.ReadFull
+//@ assumed io.ReadFull (standard library): copies into buf from the reader and reports how many bytes it copied, at most len(buf), and exactly len(buf) when it returns no error
+//@ ensures 0 <= result0 && result0 <= len(buf) && (isnil(result1) ==> result0 == len(buf))
+//@ modifies buf
+//@ end
+
+//@ func Vector.AsyncReadFrom
+//@ tags any
+//@ option opaque-calls
+//@ option go-as-call
+//@ option execute-as-range
+//@ option channels-as-log
+//@ option unsafe-views
+//@ option struct-slices
+//@ option inline-callees AsyncReadFrom$1
+//@ option nomerge
+//@ ghost invalid = false
+//@ ghost sent = false
+//@ ghost closed = 0
+//@ cut after call smallerThanModulus #*
+//@ + ghost invalid = invalid || !callresult
+//@ cut after call chansend #*
+//@ + ghost sent = true
+//@ + invariant[reports-an-error] !isnil(callarg1)
+//@ cut after call close #*
+//@ + ghost closed = closed + 1
+//@ inner *
+//@ loop 0
+//@ + invariant[errors-counted] 0 <= i && i <= 4294967296 && 0 <= cptErrors && cptErrors <= i && (invalid ==> cptErrors > 0) && Bytes*end <= len(bSlice)
+//@ ensures[invalid-element-reported] invalid ==> sent
+//@ ensures[channel-closed-once] closed == 1
+//@ ensures[sync-error] !isnil(result1) ==> !sent
+//@ modifies vector
+//@ end
